@@ -67,4 +67,58 @@ theorem prod_mem_subProducts (l fs : List Rat) (h : l.Sublist fs) : l.prod ∈ s
     simp only [subProducts, List.mem_append, List.mem_map, List.prod_cons]
     exact Or.inr ⟨_, ih, rfl⟩
 
+/-! ## the ordinary convolution over the antidiagonal -/
+
+theorem sum_range_reflect_list (f : Nat → Rat) (n : Nat) :
+    ((List.range n).map (fun j => f (n - 1 - j))).sum = ((List.range n).map f).sum := by
+  induction n generalizing f with
+  | zero => simp
+  | succ n ih =>
+    have e : (List.map ((fun j => f (n + 1 - 1 - j)) ∘ Nat.succ) (List.range n))
+        = (List.range n).map (fun j => f (n - 1 - j)) := by
+      apply List.map_congr_left
+      intro j hj
+      have : j < n := List.mem_range.mp hj
+      simp only [Function.comp]
+      congr 1; omega
+    have hl : ((List.range (n + 1)).map (fun j => f (n + 1 - 1 - j))).sum = f n + ((List.range n).map f).sum := by
+      rw [List.range_succ_eq_map, List.map_cons, List.sum_cons, List.map_map, e, ih f]
+      simp
+    have hr : ((List.range (n + 1)).map f).sum = ((List.range n).map f).sum + f n := by
+      rw [List.range_succ, List.map_append, List.sum_append]; simp
+    rw [hl, hr]; ring
+
+theorem sum_range_extend (g : Nat → Rat) (a b : Nat) (hab : a ≤ b) (hz : ∀ j, a ≤ j → g j = 0) :
+    ((List.range b).map g).sum = ((List.range a).map g).sum := by
+  induction b with
+  | zero => have : a = 0 := by omega
+            subst this; rfl
+  | succ b ih =>
+    rcases Nat.lt_or_ge b a with h | h
+    · have : a = b + 1 := by omega
+      subst this; rfl
+    · rw [List.range_succ, List.map_append, List.sum_append, ih h]; simp [hz b h]
+
+/-- the ordinary convolution written over the antidiagonal `j = 0 .. t` -/
+theorem fullConvAt_eq_range (x psf : List Rat) (t : Nat) :
+    fullConvAt x psf t = ((List.range (t + 1)).map (fun j => at0 psf j * at0 x (t - j))).sum := by
+  unfold fullConvAt
+  set g : Nat → Rat := fun j => if j ≤ t then at0 psf j * at0 x (t - j) else 0 with hg
+  have hz1 : ∀ j, psf.length ≤ j → g j = 0 := by
+    intro j hj; simp only [hg]; split
+    · rw [at0_of_ge _ _ hj]; simp
+    · rfl
+  have hz2 : ∀ j, t + 1 ≤ j → g j = 0 := by
+    intro j hj; simp only [hg]; rw [if_neg (by omega)]
+  have e1 : ((List.range psf.length).map g).sum = ((List.range (max psf.length (t + 1))).map g).sum :=
+    (sum_range_extend g _ _ (le_max_left _ _) hz1).symm
+  have e2 : ((List.range (t + 1)).map g).sum = ((List.range (max psf.length (t + 1))).map g).sum :=
+    (sum_range_extend g _ _ (le_max_right _ _) hz2).symm
+  have e3 : (List.range (t + 1)).map g = (List.range (t + 1)).map (fun j => at0 psf j * at0 x (t - j)) := by
+    apply List.map_congr_left
+    intro j hj
+    have : j < t + 1 := List.mem_range.mp hj
+    simp only [hg]; rw [if_pos (by omega)]
+  rw [← e3, e2, ← e1]
+
 end Pew.Convolve
